@@ -114,6 +114,7 @@ def run_history(cfg, ops, rseed=0):
                 c["asked"].append([m.id, _nameidx(m.queries[0].name.name) if len(m.queries) == 1 else 0, False])
                 cur["tcpsent"].append([ci + 1, m.id, _nameidx(m.queries[0].name.name) if len(m.queries) == 1 else 0])
         cur["timers"] = len(reactor.getDelayedCalls())
+        cur.pop("_draws", None)
         ev.append(dict(cur))
 
     def observer(d):
@@ -163,7 +164,7 @@ def run_history(cfg, ops, rseed=0):
                 d.addBoth(on_result, h)
             end()
         elif k in ("reply", "garbage"):
-            # op = [reply, sel, prefer_open, idmode, kind, rc, spoof]
+            # op = [reply, sel, prefer_open, idmode, kind, rc, spoof, echoed name (0 = the one asked)]
             cands = open_attempts() if op[2] else list(reactor.ports)
             p = pick(cands or list(reactor.ports), op[1])
             if p is None:
@@ -172,11 +173,12 @@ def run_history(cfg, ops, rseed=0):
             i = sent_id if op[3] == "right" else wrong(sent_id)
             if k == "garbage":
                 st["nrep"] += 1
-                begin({"e": "reply", "a": p.n, "i": i, "kind": "garbage", "rc": 0, "v": st["nrep"], "spoof": False})
+                begin({"e": "reply", "a": p.n, "i": i, "kind": "garbage", "rc": 0, "v": st["nrep"], "qn": port_name[p.n], "spoof": False})
                 data = b"\x00\x01"
             else:
-                data = message(i, port_name[p.n], op[4], op[5])
-                begin({"e": "reply", "a": p.n, "i": i, "kind": op[4], "rc": op[5], "v": st["nrep"], "spoof": bool(op[6])})
+                qn = (op[7] if len(op) > 7 else 0) or port_name[p.n]      # the question section the "server" echoes
+                data = message(i, qn, op[4], op[5])
+                begin({"e": "reply", "a": p.n, "i": i, "kind": op[4], "rc": op[5], "v": st["nrep"], "qn": qn, "spoof": bool(op[6])})
             if not p.closed:     # a datagram to a closed port is dropped by the OS
                 guard(p.proto.datagramReceived, data, ("6.6.6.6", 53) if op[6] else servers[port_srv[p.n] - 1])
             end()
@@ -207,7 +209,7 @@ def run_history(cfg, ops, rseed=0):
                 guard(c["proto"].connectionLost, Failure(error.ConnectionDone()))
             end()
         elif k == "tcpreply":
-            # op = [tcpreply, csel, qsel, idmode, kind, rc]
+            # op = [tcpreply, csel, qsel, idmode, kind, rc, echoed name (0 = the one asked)]
             cs = [i for i, c in enumerate(conns) if c["state"] == "up"]
             ci = pick(cs, op[1])
             if ci is None:
@@ -221,8 +223,13 @@ def run_history(cfg, ops, rseed=0):
                 i, name = q[0], q[1]
             if op[3] != "right":
                 i = wrong(i)
+            for qq in c["asked"]:              # a sane server echoes the question it was asked under this id
+                if qq[0] == i and not qq[2]:
+                    name = qq[1]
+                    break
+            name = (op[6] if len(op) > 6 else 0) or name
             data = message(i, name, op[4], op[5])
-            begin({"e": "tcpreply", "c": ci + 1, "i": i, "kind": op[4], "rc": op[5], "v": st["nrep"]})
+            begin({"e": "tcpreply", "c": ci + 1, "i": i, "kind": op[4], "rc": op[5], "v": st["nrep"], "qn": name})
             for qq in c["asked"]:
                 if qq[0] == i and not qq[2]:
                     qq[2] = True
@@ -234,7 +241,15 @@ def run_history(cfg, ops, rseed=0):
 
     port_id, port_name, port_srv = {}, {}, {}
     saved = dns.randomSource
-    dns.randomSource = lambda: rnd.randint(1, idmax)
+
+    def small_random():
+        # seeded stand-in for dns.randomSource; a caller spinning on it (pickID with no free id) is cut off
+        cur["_draws"] = cur.get("_draws", 0) + 1
+        if cur["_draws"] > 3000:
+            raise RuntimeError("randomSource drawn 3000 times within one call")
+        return rnd.randint(1, idmax)
+
+    dns.randomSource = small_random
     tlog.addObserver(observer)
     try:
         resolver = client.Resolver(servers=list(servers), timeout=tuple(T), reactor=reactor)
@@ -274,6 +289,7 @@ def run_proto_history(cfg, ops, rseed=0):
 
     def end():
         cur["timers"] = len(clock.getDelayedCalls())
+        cur.pop("_draws", None)
         ev.append(dict(cur))
 
     class Port:
@@ -382,7 +398,15 @@ def run_proto_history(cfg, ops, rseed=0):
             raise ValueError(op)
 
     saved = dns.randomSource
-    dns.randomSource = lambda: rnd.randint(1, idmax)
+
+    def small_random():
+        # seeded stand-in for dns.randomSource; a caller spinning on it (pickID with no free id) is cut off
+        cur["_draws"] = cur.get("_draws", 0) + 1
+        if cur["_draws"] > 3000:
+            raise RuntimeError("randomSource drawn 3000 times within one call")
+        return rnd.randint(1, idmax)
+
+    dns.randomSource = small_random
     tlog.addObserver(observer)
     try:
         proto = dns.DNSDatagramProtocol(Controller(), reactor=clock)
